@@ -221,7 +221,9 @@ CHECKS = {
   text="Coq theorems (C11/Props.v): for every sequence of documentation blocks and entity creations no block is shown on two entities; a `!>` block documents the "
        "next entity, a `!<`/`!!` block the last one, nothing else changes; the active parameter of signature help is the argument index when no `keyword=` is "
        "involved, the named parameter under `keyword=`, and the slot after it for the next positional argument; a comparison `a == b` is never read "
-       "as a keyword, whatever the parameters are called. Both models are validated against the "
+       "as a keyword, whatever the parameters are called; the value of a named constant is read back whole (up to blanks) for every well-formed value "
+       "-- balanced parentheses and brackets, no comma or `!` outside them -- whatever follows it, also behind the shape of an array constant (model of "
+       "read_parameter_value, run against the function itself). The models are validated against the "
        "implementation (recorded add_doc/add_scope/add_variable events; activeParameter of serve_signature). Restating type, selector, attributes, name, "
        "PARAMETER value, documentation, argument order and per-argument declarations is checked by an oracle on generated modules.",
   note="Partial. Trusted: Coq kernel, vm_compute, trace validation, the generator and the normalising comparison. Declaration readers/renderers are oracle-only.",
